@@ -1,6 +1,7 @@
 #include "matchmodel.h"
 #include "grammar.h"
 #include "busmodel.h"
+#include <vector>
 
 namespace vp {
 
@@ -129,6 +130,25 @@ RuleParse parse_match_rule(const std::string& t, MatchRule* out, std::string* wh
   if (unspec) { *why = unspec_why; return RuleParse::Unspec; }
   if (out) *out = r;
   return RuleParse::Ok;
+}
+
+static std::string q_(const std::string& v) { std::string o = "'"; for (char ch : v) { if (ch == '\'') o += "'\\''"; else o += ch; } return o + "'"; }
+std::string render_rule(const MatchRule& r) {
+  static const char* tn[] = {"", "method_call", "method_return", "error", "signal"};
+  std::vector<std::string> kv;
+  if (r.type) kv.push_back(std::string("type='") + tn[r.type] + "'");
+  if (r.has_sender) kv.push_back("sender=" + q_(r.sender));
+  if (r.has_iface) kv.push_back("interface=" + q_(r.iface));
+  if (r.has_member) kv.push_back("member=" + q_(r.member));
+  if (r.has_path) kv.push_back("path=" + q_(r.path));
+  if (r.has_path_ns) kv.push_back("path_namespace=" + q_(r.path_ns));
+  if (r.has_dest) kv.push_back("destination=" + q_(r.dest));
+  if (r.has_arg0ns) kv.push_back("arg0namespace=" + q_(r.arg0ns));
+  for (auto& a : r.args) kv.push_back("arg" + std::to_string(a.first) + "=" + q_(a.second));
+  for (auto& a : r.argpaths) kv.push_back("arg" + std::to_string(a.first) + "path=" + q_(a.second));
+  if (r.eavesdrop) kv.push_back("eavesdrop='true'");
+  std::string s; for (size_t i = 0; i < kv.size(); i++) { if (i) s += ","; s += kv[i]; }
+  return s;
 }
 
 static bool path_ns_match(const std::string& ns, const std::string& p) {
